@@ -18,8 +18,7 @@ MUTANTS = {
         "d20_reverted": [("_core.py", "        if registered is not None:\n            info = registered\n", "")],
         "d3_reverted": [("_core.py", "        self.out_delay_queue.async_remove_records(withdrawn)\n", "")],
         "d15_reverted": [("_core.py", "            if ttl is None and self.registry.async_get_info_name(info.key) is not info:", "            if False:")],
-        "goodbye_twice": [("_core.py", "        for i in range(_REGISTER_BROADCASTS):\n            if i != 0:\n                await asyncio.sleep(millis_to_seconds(interval))",
-                           "        for i in range(_REGISTER_BROADCASTS if ttl != 0 else 2):\n            if i != 0:\n                await asyncio.sleep(millis_to_seconds(interval))")],
+        "goodbye_twice": [("_core.py", "        \"\"\"Send a goodbye packet at intervals.\"\"\"\n        for i in range(_REGISTER_BROADCASTS):", "        \"\"\"Send a goodbye packet at intervals.\"\"\"\n        for i in range(2):")],
         "broadcast_addresses_inverted": [("_core.py", "broadcast_addresses = not bool(entries)", "broadcast_addresses = bool(entries)")],
         "close_goodbye_without_addresses": [("_core.py", "            self._add_broadcast_answer(out, info, 0)", "            self._add_broadcast_answer(out, info, 0, False)")],
     },
@@ -133,7 +132,7 @@ MUTANTS = {
         "sync_close_skips_goodbye": [("_core.py", "            else:\n                self.unregister_all_services()", "            else:\n                pass")],
     },
     "C09": {
-        "d23_reverted": [("_core.py", "        await self.async_wait_for_start()\n        await self.async_check_service(info, allow_name_change, cooperating_responders, strict)", "        info.set_server_if_missing()\n        await self.async_wait_for_start()\n        await self.async_check_service(info, allow_name_change, cooperating_responders, strict)")],
+        "d23_reverted": [("_core.py", "                if server_follows:\n                    info.server = info.name", "                if False:\n                    info.server = info.name")],
         "d24_reverted": [("_core.py", "            next_time = now + _CHECK_TIME", "            next_time += _CHECK_TIME")],
         "check_time_doubled": [("const.py", "_CHECK_TIME = 175", "_CHECK_TIME = 350")],
         "two_probes": [("_core.py", "        while i < _REGISTER_BROADCASTS:\n            # check for a name conflict", "        while i < 2:\n            # check for a name conflict")],
@@ -215,6 +214,7 @@ MUTANTS = {
         "d16_reverted": [("_listener.py", "                    protocol.undone = True", "                    protocol.undone = False")],
         "d74_reverted": [("const.py", "_DUPLICATE_PACKET_BACK_TO_BACK_INTERVAL = 20  # ms", "_DUPLICATE_PACKET_BACK_TO_BACK_INTERVAL = 50  # ms")],
         "d75_reverted": [("_core.py", "record for record in previous_addresses if record not in current and record not in shared", "record for record in previous_addresses if record not in current and record not in shared and replaced is not info")],
+        "address_goodbye_once": [("_core.py", "        \"\"\"Withdraw the addresses an update took away from a host, at intervals.\"\"\"\n        for i in range(_REGISTER_BROADCASTS):", "        \"\"\"Withdraw the addresses an update took away from a host, at intervals.\"\"\"\n        for i in range(1):")],
         "d3_reverted": [("_core.py", "        self.out_delay_queue.async_remove_records(withdrawn)\n", ""), ("_core.py", "        self.out_queue.async_remove_records(withdrawn)\n", "")],
         "goodbye_not_processed_by_browser": [("_services/browser.py", "                    elif pointer.is_expired(now):", "                    elif False:")],
         "responder_ignores_qm_ptr": [("_handlers/query_handler.py", "        if type_ in (_TYPE_PTR, _TYPE_ANY):\n            services = self.registry.async_get_infos_type(question_lower_name)", "        if type_ in (_TYPE_ANY,):\n            services = self.registry.async_get_infos_type(question_lower_name)")],
